@@ -217,6 +217,7 @@ impl ConcRunner {
                         st.lin.remove(&tid);
                         st.steps
                     };
+                    let now0 = clock.now_ns();
                     let num = |j: usize| -> u64 { op[j].parse().expect("bad number") };
                     let res = match op[0].as_str() {
                         "I" => {
@@ -252,14 +253,16 @@ impl ConcRunner {
                         (st.steps, st.lin.get(&tid).copied())
                     };
                     records.lock().unwrap().push(format!(
-                        "op t{} {} {} -> {} start={} end={} lin={}",
+                        "op t{} {} {} -> {} start={} end={} lin={} now={}:{}",
                         tid,
                         i,
                         op.join(" "),
                         res,
                         start,
                         end,
-                        lin.map(|l| l.to_string()).unwrap_or_else(|| "-".to_string())
+                        lin.map(|l| l.to_string()).unwrap_or_else(|| "-".to_string()),
+                        now0,
+                        clock.now_ns()
                     ));
                 }
                 ctl.finish(tid);
